@@ -647,8 +647,11 @@ func ruleR40(c *Ctx) {
 					why := ""
 					inspectNoLit(cc, func(z ast.Node) bool {
 						br, ok := z.(*ast.BranchStmt)
-						if !ok || br.Tok != token.GOTO {
+						if !ok || (br.Tok != token.GOTO && br.Tok != token.CONTINUE) {
 							return true
+						}
+						if br.Tok == token.CONTINUE && innermostLoopWithin(p, br, nil) && innermostLoop(p, br) != nil && innermostLoop(p, br).Pos() > cc.Pos() {
+							return true // a continue of a loop inside the clause is not the jump back to the request
 						}
 						nGoto++
 						guard := enclosingIfWhere(p, br, cc, func(cond ast.Expr, inThen bool) bool {
@@ -722,7 +725,7 @@ func ruleR40(c *Ctx) {
 						case *ast.ReturnStmt:
 							stops = true
 						case *ast.BranchStmt:
-							if x.Tok == token.GOTO {
+							if x.Tok == token.GOTO || (x.Tok == token.CONTINUE && (innermostLoop(p, x) == nil || innermostLoop(p, x).Pos() < cc.Pos())) {
 								stops = true
 							}
 						}
